@@ -415,3 +415,9 @@ def oracle(w: Any, params: Any) -> List[dict]:
 
 
 execute = std_execute(build, oracle)
+
+
+# wave h documentation (what was added to the enumeration; see DESIGN.md 11.0)
+_WAVE_H = "+ every raise point of h1_seq/h2/ws/h1/ws/h2/wsd/h1 under hypercorn's own StatsdLogger (logging the failure awaits datagrams); the h2 context continues with a connection-level WINDOW_UPDATE and a SETTINGS(initial window) change after the failure"
+RULE = RULE + " " + _WAVE_H
+BOUNDS_DOC = {k: v + " " + _WAVE_H for k, v in BOUNDS_DOC.items()}
